@@ -47,6 +47,7 @@ def cases(tier, seed):
             k = int(rng.integers(1, 12))
             case["gp_fault"] = list(range(k, k + int(rng.choice([1, 2, 3]))))
         out.append(case)
+    out += C.option_variation_slice("C15", tier, seed)
     return out
 
 
